@@ -14,6 +14,9 @@
 (*   "a_in1"  restricted value set: a within {1}                           *)
 (*   "b_in34" restricted value set: b within {3, 4}                        *)
 (*   "aorb"   fan-out slice function: a row belongs to slice a and slice b *)
+(*   "c_inUS" restricted value set given as ONE bare value: c within "US",   *)
+(*            where c is the string feature "US" (a = 1) or "UK" (a = 2);    *)
+(*            slice values are coded 91 / 92 here                            *)
 (*   "bodd"   mask function: one slice "odd" = rows with b odd             *)
 (*   "a_rep"  single feature a, masked-out rows replaced by 0 (not dropped)*)
 (*                                                                         *)
@@ -33,7 +36,7 @@ RowVals == {Row(1, 3), Row(2, 3), Row(1, 4), Row(2, 5)}
 BatchesOf == UNION {[1..m -> RowVals] : m \in 1..MaxRows}
 
 \* two slicers with the same slice name are rejected when the pipeline is built
-NameOf(sl) == CASE sl \in {"a", "a_in1", "a_rep"} -> "a" [] sl \in {"b", "b_in34"} -> "b" [] OTHER -> sl
+NameOf(sl) == CASE sl \in {"a", "a_in1", "a_rep"} -> "a" [] sl \in {"b", "b_in34"} -> "b" [] sl = "c_inUS" -> "c" [] OTHER -> sl
 
 VARIABLES stream, slicers, agg2, dis1
 vars == <<stream, slicers, agg2, dis1>>
@@ -60,6 +63,7 @@ SliceVals(sl, r) ==
     [] sl = "ab"     -> {<<r.a, r.b>>}
     [] sl = "a_in1"  -> IF r.a = 1 THEN {<<r.a>>} ELSE {}
     [] sl = "b_in34" -> IF r.b \in {3, 4} THEN {<<r.b>>} ELSE {}
+    [] sl = "c_inUS" -> IF r.a = 1 THEN {<<91>>} ELSE {}
     [] sl = "aorb"   -> {<<r.a>>, <<r.b>>}
     [] sl = "bodd"   -> IF r.b % 2 = 1 THEN {<<1>>} ELSE {}
     [] sl = "a_rep"  -> {<<r.a>>}
